@@ -17,6 +17,11 @@ import (
 // all paths (Lock/RLock sets, Unlock/RUnlock clears). Returns a function that
 // answers the question for a node.
 func mustHeld(cf *core.FuncCFG, info *types.Info) func(n ast.Node) bool {
+	return mustHeldX(cf, info, false)
+}
+
+// mustHeldX: with exclusive set, only Lock/Unlock count (a read lock does not protect a write).
+func mustHeldX(cf *core.FuncCFG, info *types.Info, exclusive bool) func(n ast.Node) bool {
 	lockOp := func(n ast.Node) int { // +1 lock, -1 unlock, 0 none (last op in the node wins)
 		res := 0
 		ast.Inspect(n, func(m ast.Node) bool {
@@ -32,10 +37,18 @@ func mustHeld(cf *core.FuncCFG, info *types.Info) func(n ast.Node) bool {
 				return true
 			}
 			switch f.Name() {
-			case "Lock", "RLock":
+			case "Lock":
 				res = 1
-			case "Unlock", "RUnlock":
+			case "Unlock":
 				res = -1
+			case "RLock":
+				if !exclusive {
+					res = 1
+				}
+			case "RUnlock":
+				if !exclusive {
+					res = -1
+				}
 			}
 			return true
 		})
@@ -449,6 +462,8 @@ func c10r3(rc *core.RC) {
 						key := fmt.Sprintf("%s/write %s.%s", fn, h.typ, sel.Sel.Name)
 						if h.builders(fn, p.FileBase(fd.Pos())) {
 							rc.OK(key, tg.Pos(), "written while the handle is being built")
+						} else if lockedField(rc, h.pkg, h.typ, sel.Sel.Name, h.builders) && mustHeldX(core.BuildCFG(fd.Body, info), info, true)(m) {
+							rc.OK(key, tg.Pos(), "written under an exclusive sync lock, and every read of %s.%s outside the builders holds a lock", h.typ, sel.Sel.Name)
 						} else {
 							rc.Bad(key, tg.Pos(), "a %s is documented as reusable and shareable between goroutines, but %s writes its field %s after construction: concurrent users race on it and one user's evaluation changes another's", h.typ, fn, sel.Sel.Name)
 						}
@@ -461,6 +476,67 @@ func c10r3(rc *core.RC) {
 			rc.Note(h.pkg+"."+h.typ+"/writes", token.NoPos, "no field writes found")
 		}
 	}
+}
+
+// lockedField reports whether every read of field typ.name outside the builders of package pkg
+// happens while a sync lock is held on all paths.
+func lockedField(rc *core.RC, pkg, typ, name string, builders func(fn, file string) bool) bool {
+	p := rc.P
+	ok, reads := true, 0
+	for _, short := range []string{"encoder", "decoder", "json"} {
+		for _, fd := range p.Funcs(short) {
+			if fd.Body == nil || builders(p.FuncName(fd), p.FileBase(fd.Pos())) {
+				continue
+			}
+			info := p.Info(fd)
+			var cf *core.FuncCFG
+			var held func(ast.Node) bool
+			// assignment targets are writes, not reads
+			lhs := map[ast.Expr]bool{}
+			ast.Inspect(fd.Body, func(m ast.Node) bool {
+				if as, isAs := m.(*ast.AssignStmt); isAs {
+					for _, l := range as.Lhs {
+						lhs[core.Unparen(l)] = true
+					}
+				}
+				return true
+			})
+			var stack []ast.Node
+			ast.Inspect(fd.Body, func(m ast.Node) bool {
+				if m == nil {
+					stack = stack[:len(stack)-1]
+					return true
+				}
+				stack = append(stack, m)
+				sel, isSel := m.(*ast.SelectorExpr)
+				if !isSel || sel.Sel.Name != name || lhs[sel] {
+					return true
+				}
+				s := info.Selections[sel]
+				if s == nil || s.Kind() != types.FieldVal || !strings.HasSuffix(strings.TrimPrefix(s.Recv().String(), "*"), "internal/"+pkg+"."+typ) {
+					return true
+				}
+				reads++
+				if cf == nil {
+					cf = core.BuildCFG(fd.Body, info)
+					held = mustHeld(cf, info)
+				}
+				// the statement that contains the read
+				var stmt ast.Node
+				for i := len(stack) - 1; i >= 0; i-- {
+					if _, isStmt := stack[i].(ast.Stmt); isStmt {
+						stmt = stack[i]
+						break
+					}
+				}
+				if stmt == nil || !held(stmt) {
+					ok = false
+				}
+				return true
+			})
+		}
+	}
+	return ok && reads > 0
 }
 
 // ---- C10.R4 no use after release ----
